@@ -576,12 +576,23 @@ async fn copy_to_qcow2<T: Qcow2IoOps>(
     off: u64,
     bytes: usize,
 ) -> Qcow2Result<usize> {
-    let mut buf = Qcow2IoBuf::<u8>::new(bytes);
+    // the tail of the raw file may not fill a whole block: pad it with zeros,
+    // the image size is rounded up to the cluster size
+    let bs = 512_usize; // block size of qcow2_default_params!()
+    let mut buf = Qcow2IoBuf::<u8>::new((bytes + bs - 1) & !(bs - 1));
+    buf.zero_buf();
 
     src.seek(SeekFrom::Start(off))?;
-    let res = src.read(&mut buf)?;
+    let mut res = 0;
+    while res < bytes {
+        let n = src.read(&mut buf[res..bytes])?;
+        if n == 0 {
+            break;
+        }
+        res += n;
+    }
 
-    dev.write_at(&buf[0..res], off).await?;
+    dev.write_at(&buf[0..(res + bs - 1) & !(bs - 1)], off).await?;
     Ok(res)
 }
 
@@ -626,7 +637,11 @@ fn convert_to_qcow2_prep(raw: &Path, qcow2: &Path) -> Qcow2Result<()> {
     let cluster_bits = 16;
     let cluster_size = 1 << cluster_bits;
     let file_orig_size = std::fs::metadata(raw).unwrap().len();
-    let file_size = (file_orig_size + cluster_size - 1) & !(cluster_size - 1);
+    // an empty raw file still becomes an image of one (zero) cluster
+    let file_size = std::cmp::max(
+        (file_orig_size + cluster_size - 1) & !(cluster_size - 1),
+        cluster_size,
+    );
 
     let img_buf = __format_qcow2_buf(file_size, cluster_bits, 4, 4096);
     let mut f = std::fs::OpenOptions::new()
